@@ -75,9 +75,12 @@ func maxLogN() int {
 
 // genParams draws an RLWE literal: 1-4 Q primes of mixed sizes, 0-2 P primes (mostly at least as large as the largest
 // Q prime, as every caller chooses them), both ring types, both NTT flags, assorted secret / error distributions.
-func genParams(t *rapid.T) h.RLWESpec {
+func genParams(t *rapid.T) h.RLWESpec { return genParamsMin(t, 4) }
+
+// genParamsMin is genParams with a lower bound on log2 N.
+func genParamsMin(t *rapid.T, minLogN int) h.RLWESpec {
 	var s h.RLWESpec
-	s.LogN = rapid.IntRange(4, maxLogN()).Draw(t, "logN")
+	s.LogN = rapid.IntRange(minLogN, maxLogN()).Draw(t, "logN")
 	s.CI = rapid.IntRange(0, 3).Draw(t, "ringType") == 0
 	s.NTT = rapid.Bool().Draw(t, "nttFlag")
 	m := s.NthRoot()
@@ -577,6 +580,19 @@ func bigToPoly(r *ring.Ring, v []*big.Int, toNTT bool) ring.Poly {
 func skToBig(params rlwe.Parameters, sk *rlwe.SecretKey) []*big.Int {
 	r := params.RingQ()
 	c := *sk.Value.Q.CopyNew()
+	r.IMForm(c, c)
+	r.INTT(c, c)
+	return h.VecCenter(h.CRT(c.Coeffs, moduli(r)), h.ProdU(moduli(r)))
+}
+
+// skToBigAt is skToBig restricted to the first level+1 limbs of Q (an ephemeral relinearisation secret is only valid
+// up to the level of the key being generated).
+func skToBigAt(params rlwe.Parameters, sk *rlwe.SecretKey, level int) []*big.Int {
+	r := params.RingQ().AtLevel(level)
+	c := ring.NewPoly(r.N(), level)
+	for i := 0; i <= level; i++ {
+		copy(c.Coeffs[i], sk.Value.Q.Coeffs[i])
+	}
 	r.IMForm(c, c)
 	r.INTT(c, c)
 	return h.VecCenter(h.CRT(c.Coeffs, moduli(r)), h.ProdU(moduli(r)))
